@@ -83,7 +83,7 @@ PROPERTY_META = {
                 design_ref='DESIGN.md 6 C14'),
     'C15': dict(claimed=True, level='model_checking',
                 text='The real cntgs::detail::uninitialized_construct (the single funnel of every FixedSize/VaryingSize store) is verified per stored type x source value type x source form (pointer, std::array lvalue and rvalue, C array, non-contiguous generated iterator, aliasing-safe path) against: stored item k == StoredType(source item k) evaluated in C on the scalar types for an arbitrary witness k, returned end == target + n items, and an assigns clause that contains only the target items (sources unmodified). emplace_at is proved (unbounded) to pass its arguments to these stores at the right addresses.',
-                note='Bounded: at most 4 items per span (copy loops unwound with unwinding assertions); the memcpy branch is covered by the copy model that is exact at the witness item. For the non-trivial vf::Tracked the FixedSize store is verified to copy-construct every item of an lvalue std::array exactly once without moving from it, and to move from every item of an rvalue array exactly once. Class types with converting constructors, std::list, move_iterator, std::deque iterators and reverse_iterator sources are not under contract (the last two are mistaken for contiguous by the pinned tree: defect D22 in DESIGN.md 1, reproduced natively, reached by no unit); conversions that are undefined in C++ (float out of range) are excluded by precondition.',
+                note='Bounded: at most 4 items per span (copy loops unwound with unwinding assertions); the memcpy branch is covered by the copy model that is exact at the witness item. For the non-trivial vf::Tracked the FixedSize store is verified to copy-construct every item of an lvalue std::array exactly once without moving from it, and to move from every item of an rvalue array exactly once. A std::reverse_iterator over a pointer is under the same contract for uint32_t (known finding D22: the pinned tree takes it for contiguous and memcpys forward). Class types with converting constructors, std::list, move_iterator and std::deque iterators are not under contract; conversions that are undefined in C++ (float out of range) are excluded by precondition.',
                 design_ref='DESIGN.md 6 C15'),
     'C11': dict(claimed=True, level='model_checking',
                 text='operator[] and iterator dereference (both const overloads) are verified to build a reference whose pointers are exactly the stored objects of the indexed element (so every access path denotes the same objects); iterator.data() is the element start; reference = reference is verified per list (trivial fields coalesced into memmove runs, vf::Tracked fields through the value type) against: trivial fields hold the source bytes (witness address), every non-trivial item is copy- resp. move-assigned exactly once from the item at the same place, an lvalue source is not moved from and not written; swap exchanges trivial bytes and swaps non-trivial items through their move operations.',
@@ -167,6 +167,10 @@ def units(tier, seed=0):
             us.append(dict(id='conv.%s_from_%s.%s' % (T, U, form), tu='conv_%s_%s' % (T, U), gen=cxx, template_text=conv.c_unit(T, U, form), vars={},
                            entry='h_uc', enforce='@F{%s}' % conv.FORMS[form][0], replace=[], props=['C15', 'C01'], layer='memory.hpp/typeTraits.hpp',
                            kind='bounded(items <= 4, copy loop unwound)', unwind=6, cdefs=['VF_WINDOWS=1'], config='conversion: %s <- %s, %s' % (T, U, form), replay='convert'))
+    # C15, defect D22: random-access iterators that are not contiguous (std::reverse_iterator over a pointer) as the source of a store
+    us.append(dict(id='conv.u32_from_u32.reverse_iterator', tu='conv_rev_u32', gen=REV_CXX, template_text=REV_UNIT, vars={}, entry='h_uc', enforce='@F{%s}' % REV_RX, replace=[],
+                   props=['C15'], layer='memory.hpp/iterator.hpp', kind='bounded(items <= 4, copy loop unwound)', unwind=6, cdefs=['VF_WINDOWS=1'],
+                   config='conversion: u32 <- u32, std::reverse_iterator<const uint32_t*>'))
     for spec, flags in elem.ELEM_CATALOGUE[tier]:
         for f in flags:
             txt, L = elem.c_unit(spec, f)
@@ -316,6 +320,44 @@ def exc_vec_units(tier):
 # reference lists with a coalesced trivial run of 16 bytes or more that is not a multiple of 16 (blocked copy/swap implementations have a tail there;
 # the lists of tools/refops.py have runs of at most 12 bytes): added after seeded change C11-5 was missed
 EXTRA_REF_LISTS = {'quick': ['p16 p4'], 'thorough': ['p16 p4', 'p8 p8 p4']}
+
+
+REV_RX = r'cntgs::detail::uninitialized_construct<true, [^,]*, std::reverse_iterator<'
+REV_CXX = '''// units.py: stored type uint32_t, source std::reverse_iterator<const uint32_t*>: forwarding call only
+#include "support.hpp"
+#include <cntgs/contiguous.hpp>
+#include <iterator>
+using T = std::uint32_t; using U = std::uint32_t;
+extern "C" {
+std::byte* vfx_rev(const std::reverse_iterator<const U*>& it, T* a, std::size_t n) { return cntgs::detail::uninitialized_construct<true>(it, a, n); }
+}
+'''
+REV_UNIT = '''/* units.py: uninitialized_construct, stored u32, source u32, source form std::reverse_iterator<const uint32_t*> (item k is base[-1-k]) */
+#include <stdlib.h>
+#include "prelude.h"
+#include "{{TU_C}}"
+#define MAXN 4ull
+#define F_UC @F{%(rx)s}
+typedef @T{%(rx)s|0} SRCp;
+typedef @T{%(rx)s|1} TGTp;
+uint64_t g_k; /* witness item index */
+uint32_t g_srck; /* the source item at the witness index before the call */
+uint8_t *F_UC(SRCp src, TGTp address, uint64_t n)
+__CPROVER_requires(__CPROVER_r_ok(src, sizeof(*src)) && n <= MAXN && __CPROVER_r_ok((uint32_t *)src->f0 - MAXN, 2 * MAXN * sizeof(uint32_t)) && (n == 0 || __CPROVER_w_ok(address, n * sizeof(uint32_t))))
+__CPROVER_requires(g_k >= n || (g_srck == ((uint32_t *)src->f0)[-1 - (int64_t)g_k] && g_win[0] == g_k * sizeof(uint32_t)))
+__CPROVER_ensures(__CPROVER_return_value == (uint8_t *)address + n * sizeof(uint32_t)) /* C15: exactly as many items are consumed and stored as the parameter holds */
+__CPROVER_ensures(g_k >= n || ((uint32_t *)address)[g_k] == (uint32_t)g_srck) /* C15: the stored item equals the source item the iterator denotes at that position, also for random-access iterators that are not contiguous (witness item) */
+__CPROVER_assigns(__CPROVER_object_upto((uint8_t *)address, n * sizeof(uint32_t))) /* C15: the source is left unmodified; only the target items are written */
+;
+void h_uc(void)
+{
+    uint64_t n = nondet_u8(); __CPROVER_assume(n <= MAXN); g_k = nondet_u8(); g_wit = nondet_u8(); g_win[0] = g_k * sizeof(uint32_t);
+    uint32_t *s = malloc(2 * MAXN * sizeof(uint32_t)); SRCp src = malloc(sizeof(*src)); src->f0 = (void *)(s + MAXN);
+    TGTp a = malloc(MAXN * sizeof(uint32_t));
+    if (g_k < n) g_srck = s[MAXN - 1 - g_k];
+    F_UC(src, a, n);
+}
+''' % dict(rx=REV_RX)
 
 
 def src_watch_text(txt):
